@@ -1,6 +1,6 @@
-CONSTANT MaxGen = 3
+CONSTANT MaxGen = 2
 CONSTANT NDig = 2
-CONSTANT MaxRevs = 4
+CONSTANT MaxRevs = 3
 CONSTANT MaxSteps = 4
 CONSTANT Reps <- Two
 CONSTANT Depths = {1}
